@@ -123,6 +123,11 @@ def run_case(c):
     t = truth(c, h)
     w = WCS(h)
     out = []
+    if c['noise'] and len(rows) > 1:
+        # noise can add a faint spurious component on the flank of the island: only a companion above 20 % of the peak counts
+        rows = sorted(rows, key=lambda r_: -abs(r_.peak_flux))
+        if abs(rows[1].peak_flux) <= 0.2 * c['amp']:
+            rows = rows[:1]
     if len(rows) != 1:
         a_ = np.abs(img)
         if not c['noise'] and int((a_ >= a_.max() * (1 - 1e-12)).sum()) > 1:
@@ -140,7 +145,8 @@ def run_case(c):
     dpa = abs(((r.pa - t['pa'] + 90) % 180) - 90)
     if c['noise']:
         k = 8      # the clause says 5 sigma; 8 keeps a calibrated estimator from ever raising a (statistical) false alarm
-        checks = [("position", abs(r.ra - t['ra']) * np.cos(np.radians(t['dec'])) <= k * max(r.err_ra, 0) + 1e-9 or r.err_ra < 0,
+        dra = (r.ra - t['ra'] + 180.0) % 360.0 - 180.0        # RA difference across the 0/360 wrap
+        checks = [("position", abs(dra) * np.cos(np.radians(t['dec'])) <= k * max(r.err_ra, 0) + 1e-9 or r.err_ra < 0,
                    "ra %r vs %r +- %r" % (r.ra, t['ra'], r.err_ra)),
                   ("peak_flux", abs(r.peak_flux - amp) <= k * r.err_peak_flux or r.err_peak_flux < 0, "peak %r vs %r +- %r" % (r.peak_flux, amp, r.err_peak_flux)),
                   ("major_axis", abs(r.a - t['a']) <= k * r.err_a or r.err_a < 0, "a %r vs %r +- %r" % (r.a, t['a'], r.err_a)),
